@@ -41,7 +41,7 @@ def st_append_arg(draw, valid_only=False):
 
 @st.composite
 def st_array_op(draw, shape_rank, extra=()):
-    o = draw(st.sampled_from(['append', 'append', 'iterappend', 'set', 'trunc', 'trunc', 'mode', 'reopen', 'ctx', 'copy', 'failappend', 'sibling'] + list(extra)))
+    o = draw(st.sampled_from(['append', 'append', 'iterappend', 'set', 'trunc', 'trunc', 'mode', 'reopen', 'ctx', 'copy', 'failappend', 'sibling', 'recreate'] + list(extra)))
     if o == 'append':
         return {'o': 'append', 'arg': draw(st_append_arg())}
     if o == 'iterappend':
@@ -65,6 +65,8 @@ def st_array_op(draw, shape_rank, extra=()):
         return {'o': 'overwrite', 'start': draw(st_start()), 'over': draw(st.sampled_from(['same', 'same', 'ragged']))}
     if o == 'copy':
         return {'o': 'copy', 'chunklen': draw(st.sampled_from([None, 1, 2, 3]))}
+    if o == 'recreate':
+        return {'o': 'recreate', 'how': draw(st.sampled_from(['delete_array', 'rmtree']))}
     if o == 'sibling':
         return {'o': 'sibling', 'start': draw(st_start()), 'via': draw(st.sampled_from(['create', 'create', 'open']))}
     if o == 'failappend':
@@ -500,6 +502,26 @@ class ArrayRun:
                 return False
             self.m = newm
             return self.observe(tag)
+        if o == 'recreate':
+            # the array is deleted and the SAME array (same start state, hence same type, shape and metadata presence) is created
+            # again at the same path in the same process
+            if getattr(self, 'in_ctx', False) or self.path != os.path.join(self.d, 'arr.darr'):
+                return True
+            self.kinds.append('recreate')
+            self.out.cls('deleted-and-created-again-at-the-same-path')
+            try:
+                if op['how'] == 'delete_array' and not os.path.exists(os.path.join(self.path, 'values')):
+                    self.a.accessmode = 'r+'
+                    darr.delete_array(self.a)
+                else:
+                    import shutil
+                    self.a = None
+                    shutil.rmtree(self.path)
+                self.create(self.spec['start'])
+            except Exception as e:
+                self.out.viol('valid-call-raised', f'recreate:{type(e).__name__}', f'step {self.stepno}: {type(e).__name__}: {e}')
+                return False
+            return self.observe('recreate')
         if o == 'sibling':
             # another Array (other dtype, rank, byte order) comes to life in the same process and stays alive
             self.out.cls('sibling-object-alive')
